@@ -215,6 +215,9 @@ def oracleL1 (evs : List (List String)) (impl : String) : String :=
         if obsL.contains "hp" && !prev.hook then "bad:pipeline-stopped-twice"
         else if (obsL.any (·.startsWith "hs")) && prev.hook && !obsL.contains "hp" then "bad:pipeline-started-while-running"
         else if !dead && sn.hook != !sn.inputs.isEmpty then "bad:pipeline-state-does-not-match-input:" ++ sn.core
+        -- a group that reports itself inactive is erased by the manager: with a relay-pull attempt still in flight the
+        -- attempt would later attach to the orphan and the name could be given to a second input
+        else if !dead && (snap.splitOn " ").contains "p1" && (snap.splitOn " ").contains "ia1" then "bad:inactive-with-a-pull-attempt-in-flight"
         else "ok"
       (sn, relay, v, dead)
     | _ => (prev, relay, "bad:unparsable", dead)
@@ -360,6 +363,21 @@ def oracleL2 (evs : List Ev) (impl : String) : String :=
     if notified > accepted then "bad:a-refused-session-was-notified" else
     let pulls := (r.1.filter fun (_, h) => h.head? == some "relay_pull_start" || h.head? == some "relay_pull_stop").length
     if pulls > attempts then "bad:more-relay-pull-sessions-notified-than-attempts-seen" else
+    -- when every connection of the scenario has ended (and it used nothing but RTMP / RTSP connections), every session
+    -- that was started has been stopped: "start/stop ... as matching pairs"
+    let onlyConns := evs.all fun e => match e with
+      | .rOpen _ | .rPublish .. | .rPlay .. | .rMedia _ | .rClose _ | .sOpen _ | .sAnnounce .. | .sDescribe .. | .sSetup _
+      | .sRecord _ | .sPlay .. | .sMedia _ | .sClose _ | .stat _ => true
+      | _ => false
+    let opened := evs.filterMap fun e => match e with | .rOpen c => some c | .sOpen c => some c | _ => none
+    let ended (c : Sid) : Bool := (evs.zip res).any fun (e, r) =>
+      match e with
+      | .rClose c' => c' == c | .sClose c' => c' == c
+      | .rPublish c' _ _ | .rPlay c' _ _ _ | .rMedia c' | .sAnnounce c' _ _ _ | .sDescribe c' _ _ _ | .sSetup c' | .sRecord c'
+      | .sPlay c' _ | .sMedia c' => c' == c && r == "closed"
+      | _ => false
+    if onlyConns && opened.all ended && r.1.any (fun (_, h) => h.length == 1 && (h.head?.getD "").endsWith "_start") then
+      "bad:session-started-but-never-stopped-although-every-connection-ended" else
     -- media is broadcast only for a source the server itself accepted (its own answers) and that has not left
     let fw := (evs.zip res).foldl (fun (a : List Sid × String) (p : Ev × String) =>
       if a.2 != "ok" then a else
